@@ -5,3 +5,4 @@ import TangeloModel.Sim
 import TangeloModel.Gate
 import TangeloModel.Circuit
 import TangeloModel.Store
+import TangeloModel.Clifford
